@@ -76,6 +76,15 @@ def evaluate(contract, case, S):
                     clauses["post_exc." + nm] = bool(f)
     except Exception as e:
         res["spec_error"] = "%s: %s\n%s" % (type(e).__name__, e, traceback.format_exc()[-800:])
+    # a false clause on an input inside one of the contract's known regions carries that region's tag
+    if any(v is False for k, v in clauses.items() if not k.startswith("canary.")):
+        try:
+            for tag, cond in contract.known_regions(S, case, env).items():
+                if cond:
+                    clauses = {(k + "@" + tag if (v is False and not k.startswith("canary.")) else k): v for k, v in clauses.items()}
+                    break
+        except Exception as e:
+            res["region_error"] = "%s: %s" % (type(e).__name__, e)
     res["clauses"] = clauses
     return res
 
